@@ -58,7 +58,7 @@ def getter(cls, hdr, name, ret, where=None):
 
 TABLE = [
  dict(cls='UDP', src='src/udp.cpp', hdr='include/tins/udp.h', structs=['udp_header'], members='udp_header header_;', news=['RawPDU'],
-      mutant='mutant: if \\(stream\\) ==> if (true)'),
+      mutant='mutant: stream\\.size\\(\\)\\)\\); ==> stream.size() + 1));'),
  dict(cls='EthernetII', src='src/ethernetII.cpp', hdr='include/tins/ethernetII.h', structs=['ethernet_header'], members='ethernet_header header_;',
       funcs=[('payload_type', 'uint16_t')]),
  dict(cls='Dot3', src='src/dot3.cpp', hdr='include/tins/dot3.h', structs=['dot3_header'], members='dot3_header header_;', news=['LLC']),
@@ -74,7 +74,7 @@ TABLE = [
  dict(cls='STP', src='src/stp.cpp', hdr='include/tins/stp.h', structs=['pvt_bpdu_id', 'stp_header'], members='stp_header header_;', unreach=''),
  dict(cls='VXLAN', src='src/vxlan.cpp', hdr='include/tins/vxlan.h', structs=['vxlan_header'], members='vxlan_header header_;'),
  dict(cls='PKTAP', src='src/pktap.cpp', hdr='include/tins/pktap.h', structs=['pktap_header'], members='pktap_header header_;',
-      mutant='mutant: header_length > total_sz \\|\\|  ==> '),
+      mutant='mutant: stream\\.size\\(\\)\\s*\\) ==> stream.size() + 1)'),
 ]
 
 
